@@ -154,6 +154,26 @@ def fixed_programs():
               ["AddBundleDoc", "0", "2", ["Q", "ex", "http://example.org/", "b"], ["ex"]],
               ["Flattened", "0"], ["Update", ["d", "2"], ["d", "0"]]]
         out.append(p)
+    # records holding, as an ordinary attribute, a PROV attribute name that is formal for other kinds only (prov:time on an
+    # association, prov:activity on an influence, prov:entity on an agent, prov:agent on an entity): copies must keep it
+    PROVU = "http://www.w3.org/ns/prov#"
+    EXU = "http://example.org/"
+    t = ["time", "2012", "3", "31", "9", "21", "0", "0", "none"]
+
+    def q(l):
+        return ["Q", "prov", PROVU, l]
+    recs = [("Association", "ex:as", [[q("activity"), ["str", "ex:a"]], [q("agent"), ["str", "ex:ag"]], [q("time"), t]]),
+            ("Influence", "ex:inf", [[q("influencee"), ["str", "ex:e"]], [q("influencer"), ["str", "ex:a"]], [q("activity"), ["str", "ex:a2"]]]),
+            ("Agent", "ex:ag", [[q("entity"), ["str", "ex:e"]], [["S", "ex:k"], ["int", "1"]]]),
+            ("Entity", "ex:e", [[q("agent"), ["str", "ex:ag"]], [q("startTime"), t]]),
+            ("Usage", "none", [[q("activity"), ["str", "ex:a"]], [q("entity"), ["str", "ex:e"]], [q("plan"), ["str", "ex:p"]], [q("endTime"), t]])]
+    p = [["NewDoc"], ["AddNs", ["d", "0"], "ex", EXU], ["NewBundle", "0", ["S", "ex:b"]]]
+    for kind, ident, attrs in recs:
+        p.append(["NewRecord", ["d", "0"], kind, "none" if ident == "none" else ["S", ident], attrs])
+        p.append(["NewRecord", ["b", "0", "0"], kind, "none" if ident == "none" else ["S", ident], attrs])
+    p += [["Flattened", "0"], ["NewDoc"], ["Update", ["d", "2"], ["d", "0"]],
+          ["NewDoc"], ["AddBundleDoc", "3", "0", ["Q", "ex", EXU, "whole"], ["ex"]]]
+    out.append(p)
     return out
 
 
